@@ -632,11 +632,22 @@ fn complete_root(n: usize) -> usize {
 /// Note: `complete binary tree` here refers to a tree in which all left subtrees
 ///       are perfect, which is a stronger assumption than just "complete".
 fn complete_parent(i: usize, n: usize) -> usize {
+    try_complete_parent(i, n).expect("node must have a parent inside the tree")
+}
+
+/// Returns the parent index of a node at index `i` in a complete binary tree of size `n`,
+/// or `None` if no ancestor of `i` falls inside the tree (i.e. `i` is the root of the tree
+/// or lies outside of it).
+fn try_complete_parent(i: usize, n: usize) -> Option<usize> {
     let mut i = i;
     loop {
+        // `usize::MAX` has no unset bit and hence no perfect parent.
+        if i == usize::MAX {
+            break None;
+        }
         i = perfect_parent(i);
         if i < n {
-            break i;
+            break Some(i);
         }
     }
 }
@@ -699,8 +710,9 @@ fn is_branch(i: usize) -> bool {
 /// `j` is said to fall inside the tree if `j < n`.
 #[inline]
 fn is_leaf_index_in_tree(i: usize, n: usize) -> bool {
-    let j = leaf_index_to_tree_index(i);
-    is_tree_index_in_tree(j, n)
+    // a leaf index whose tree index is not representable cannot be inside any tree
+    i.checked_mul(2)
+        .is_some_and(|j| is_tree_index_in_tree(j, n))
 }
 
 /// Returns if a tree index `i` is part of  tree.
